@@ -55,7 +55,7 @@ fn gen_pair(c: &mut Ctx) -> (i64, u32) {
         2 => c.rng.log_i64().clamp(MIN_S, MAX_S),
         _ => c.rng.range(-100_000, 100_000),
     };
-    let n = if c.rng.chance(1, 2) { *c.rng.pick(&ns) } else { c.rng.below(1_000_000_000) as u32 };
+    let n = if c.rng.chance(1, 2) { *c.rng.pick(&ns) } else { c.rng.nanos() };
     (s, n)
 }
 fn gen_valid(c: &mut Ctx) -> TimeDelta {
@@ -336,7 +336,7 @@ pub fn run(c: &mut Ctx) {
             2 => c.rng.below(1_000_000),
             _ => *c.rng.pick(&[0u64, 1, u64::MAX, i64::MAX as u64, i64::MAX as u64 + 1]),
         };
-        let n: u32 = if c.rng.chance(1, 2) { *c.rng.pick(&[0, 1, MAX_N, MAX_N + 1, MAX_N - 1, 999_999_999]) } else { c.rng.below(1_000_000_000) as u32 };
+        let n: u32 = if c.rng.chance(1, 2) { *c.rng.pick(&[0, 1, MAX_N, MAX_N + 1, MAX_N - 1, 999_999_999]) } else { c.rng.nanos() };
         let got = gs(|| TimeDelta::from_std(Duration::new(s, n)).ok(), so);
         c.op(&format!("td.from_std {s} {n}"), &got);
         if let Ok(Some(d)) = guard(|| TimeDelta::from_std(Duration::new(s, n)).ok()) {
@@ -378,7 +378,7 @@ pub fn run(c: &mut Ctx) {
             1 => 999_999_999,
             2 => (ka.min(999_999_999) as u32).saturating_sub(c.rng.below(2) as u32),
             3 => ((c.rng.below(1_000_000_000) as i64 / ka * ka + c.rng.range(-1, 1)).clamp(0, 999_999_999)) as u32,
-            _ => c.rng.below(1_000_000_000) as u32,
+            _ => c.rng.nanos(),
         };
         let a = match TimeDelta::new(s0, n0) {
             Some(a) => a,
